@@ -83,6 +83,20 @@ let run (toks : string list) : string =
   | "renderlen" :: spec :: sink :: _ ->
       let r = render_result spec sink in
       Printf.sprintf "%s %d %d" (result_class r) (int_of_nat r.M.r_n) (List.length r.M.r_out)
+  | ["history"; _; ops; spec] ->
+      (* successive renders threading the message state (caches) and the randomness oracle *)
+      let (m0, date, msgid, rb0) = parse_msg spec in
+      let rec drop n l = if n <= 0 then l else (match l with [] -> [] | _ :: t -> drop (n - 1) t) in
+      let m = ref m0 and rb = ref rb0 and outs = ref [] in
+      List.iter (fun op ->
+        let draws = (if M.has_mixed !m then 1 else 0) + (if M.has_related !m then 1 else 0) + (if M.has_alt !m then 1 else 0) in
+        let sink = if op.[0] = 'K' then M.fail_at (nat_of_int (int_of_string (String.sub op 1 (String.length op - 1)))) false
+                   else M.unlimited in
+        let r = M.write_to date msgid !rb !m sink in
+        rb := drop draws !rb;
+        m := r.M.r_msg;
+        if op.[0] <> 'K' then outs := !outs @ [hex_of_bytes r.M.r_out]) (split_on ',' ops);
+      if !outs = [] then "-" else String.concat "," !outs
   | ["wordenc"; e; s] -> hex_of_bytes (M.word_encode (n_of_int (if e = "b" then 98 else 113)) (bytes_of_hex s))
   | ["b64"; chunks] | ["b64f"; chunks] ->
       (match M.b64_body (List.concat (byteslist_of chunks)) with
